@@ -7,12 +7,13 @@
  *   newest        largest version among the valid copies
  *   up_to_date(i) valid(i) and version(i) == newest
  *   wf(data)      W0 some copy is valid
- *                 W1 owner_device is -1 or names a valid copy
+ *                 W1 owner_device is -1 or names a valid copy in state OWNED or SHARED
  *                 W2 a copy in state OWNED is the one named by owner_device (=> at most one owner)
  *                 W3 an EXCLUSIVE copy excludes every other valid copy
  *                 W4 the copy named by owner_device holds the newest version
  *                 W5 without an owner all valid copies hold the same version
  *                 W6 coherency states are one of INVALID/OWNED/EXCLUSIVE/SHARED
+ *                 W7 owner_device names a SHARED copy <=> ghost owner_read (set only by the owner's own READ)
  *
  * Caller protocol between two operations (what the property's histories do; assumption, see spec.py):
  *   - when a transfer from copy r is requested the caller copies the payload: version(target) := version(r)
@@ -51,6 +52,7 @@ struct vin {
     uint8_t  dev;
     uint8_t  mode;
     uint32_t bump;
+    uint8_t  g_owner_read;     /* ghost bit of the pre-state, see quirk ghost below */
     /* histories */
     uint8_t  h_init;
     uint8_t  h_dev[KSTEPS];
@@ -134,7 +136,7 @@ static int wf_owner_names_valid(const struct snap *s)
 {
     if (s->owner == -1) return 1;
     if (s->owner < 0 || s->owner >= NDEV) return 0;
-    return s_valid(s, s->owner);
+    return s_valid(s, s->owner) && s->coh[s->owner] != EXC;   /* an EXCLUSIVE copy is nobody's: no code names one as owner */
 }
 static int wf_owned_is_owner(const struct snap *s)
 {
@@ -176,11 +178,22 @@ static int wf(const struct snap *s)
         && wf_owner_newest(s) && wf_no_owner_all_equal(s) && wf_states(s);
 }
 
-/* the states in which the copy named by owner_device has been demoted to SHARED by its own
- * read access (end_transfer(owner, READ)): the known finding lives exactly there */
-static int owner_copy_not_owned(const struct snap *s)
+/* Ghost bit "owner_read": the copy named by owner_device lost state OWNED through the OWNER'S OWN read access
+ * (start takes the 'already has ownership' shortcut, end(owner, READ) turns the copy SHARED, owner_device stays).
+ * The spec updates it: set exactly by a step (device == owner_device, READ), cleared by every write access,
+ * unchanged otherwise.  Coupling invariant W7: owner_device names a SHARED copy  <=>  owner_read.
+ * Hence an owner's copy can lose OWNED only through a write by another device or the owner's own read; the
+ * known finding (stale copy served without transfer) is confined to owner_read states, everything else is
+ * an unlisted violation in the main jobs. */
+static int owner_copy_shared(const struct snap *s)
 {
-    return s->owner >= 0 && s->owner < NDEV && s->coh[s->owner] != OWN;
+    return s->owner >= 0 && s->owner < NDEV && s->present[s->owner] && s->coh[s->owner] == SHA;
+}
+static int ghost_next(int g, const struct snap *pre, int t, int mode)
+{
+    if (mode & WR) return 0;
+    if (t == pre->owner) return 1;
+    return g;
 }
 
 /* ------------------------------------------------------------------ */
@@ -192,16 +205,38 @@ static int owner_copy_not_owned(const struct snap *s)
 #define OBL(c, name) do { } while (0)   /* the defect jobs hold the known-failing obligation only */
 #endif
 
-static void check_start(const struct snap *pre, const struct snap *mid, int t, int mode, int r)
+/* permitted transitions of the copies of the OTHER devices, per (access mode, old state), as the unchanged
+ * protocol needs them; `aft` is the state after start (end does not touch other copies) */
+#define DEF_TABLE(fn, P) \
+static void fn(const struct snap *pre, const struct snap *aft, int t, int mode) \
+{ \
+    for (int i = 0; i < NDEV; i++) { \
+        if (i == t || !pre->present[i]) continue; \
+        int o = pre->coh[i], n = aft->coh[i]; \
+        OBL(V_IMPLIES(o == INV, n == INV), P ".table.other_INVALID_copy_stays_INVALID"); \
+        OBL(V_IMPLIES(mode == RD && o == OWN, n == OWN), P ".table.read_by_another_device_never_demotes_OWNED_copy"); \
+        OBL(V_IMPLIES(mode == RD && o == EXC, n == SHA), P ".table.read_by_another_device_turns_EXCLUSIVE_copy_SHARED"); \
+        OBL(V_IMPLIES(mode == RD && o == SHA, n == SHA || (n == INV && pre->coh[t] == OWN && pre->ver[i] < pre->ver[t])), \
+            P ".table.read_keeps_SHARED_copy_or_invalidates_it_when_stale_under_owner"); \
+        OBL(V_IMPLIES((mode & WR) && t != pre->owner && o != INV, n == SHA), P ".table.write_by_non_owner_turns_other_valid_copies_SHARED"); \
+        OBL(V_IMPLIES((mode & WR) && t == pre->owner, n == o), P ".table.write_by_owner_leaves_other_copies_unchanged"); \
+    } \
+}
+DEF_TABLE(table_start, "C26.start.post")
+DEF_TABLE(table_transfer, "C26.transfer.post")
+DEF_TABLE(table_history, "C26.history")
+
+static void check_start(const struct snap *pre, const struct snap *mid, int t, int mode, int r, int g)
 {
+    table_start(pre, mid, t, mode);
     int want_transfer = (mode & RD) && !s_up_to_date(pre, t);
     /* "a transfer is requested exactly when the target copy is not up to date" (a pure write overwrites: never) */
 #ifdef ONLY_DEFECT
     V_ASSERT(V_IFF(r != -1, want_transfer), "C26.start.post.transfer_requested_iff_target_not_up_to_date");
 #else
-    /* same clause on the states where the owner's copy is in state OWNED, or there is no owner */
-    OBL(V_IMPLIES(!owner_copy_not_owned(pre), V_IFF(r != -1, want_transfer)),
-        "C26.start.post.transfer_requested_iff_target_not_up_to_date.owner_copy_in_state_OWNED_or_no_owner");
+    /* same clause on every state not produced by the owner's own read (ghost owner_read clear) */
+    OBL(V_IMPLIES(!g, V_IFF(r != -1, want_transfer)),
+        "C26.start.post.transfer_requested_iff_target_not_up_to_date.unless_owner_read_its_own_copy");
     /* one direction holds everywhere: a requested transfer is never superfluous */
     OBL(V_IMPLIES(r != -1, want_transfer), "C26.start.post.transfer_requested_only_if_target_not_up_to_date");
     OBL(V_IMPLIES(!(mode & RD), r == -1), "C26.start.post.pure_write_requests_no_transfer");
@@ -249,8 +284,9 @@ static void check_end(const struct snap *mid, const struct snap *post, int t, in
     }
 }
 
-static void check_wf(const struct snap *s)
+static void check_wf(const struct snap *s, int g)
 {
+    OBL(V_IFF(owner_copy_shared(s), g), "C26.inv.owner_copy_SHARED_only_after_the_owners_own_read");
     OBL(s_nb_owned(s) <= 1, "C26.inv.at_most_one_copy_is_OWNED");
     OBL(wf_owned_is_owner(s), "C26.inv.OWNED_copy_is_named_by_owner_device");
     OBL(wf_owner_names_valid(s), "C26.inv.owner_device_is_minus1_or_a_valid_copy");
@@ -280,6 +316,10 @@ static void load_symbolic_wf_state(struct snap *pre)
     }
     pre->owner = vin.owner;
     V_ASSUME(wf(pre));
+    V_ASSUME(vin.g_owner_read <= 1 && V_IFF(owner_copy_shared(pre), vin.g_owner_read));   /* W7 */
+#ifdef ONLY_DEFECT
+    V_ASSUME(vin.g_owner_read == 1);   /* the known finding's own states only */
+#endif
 }
 
 /* ------------------------------------------------------------------ */
@@ -298,7 +338,7 @@ void h_step(void)
 
     int r = parsec_data_start_transfer_ownership_to_copy(data, (uint8_t)t, (uint8_t)mode);
     take(&mid);
-    check_start(&pre, &mid, t, mode, r);
+    check_start(&pre, &mid, t, mode, r, vin.g_owner_read);
 
     if (r >= 0 && r < NDEV) pool[t].version = pool[r].version;   /* the requested transfer happens */
     take(&mid);
@@ -308,9 +348,9 @@ void h_step(void)
 
     caller_after(&pre, t, mode, -1, vin.bump);
     take(&fin);
-    check_wf(&fin);
-    OBL(V_IMPLIES(!owner_copy_not_owned(&pre), s_up_to_date(&fin, t)),
-        "C26.step.post.target_up_to_date_after_access.owner_copy_in_state_OWNED_or_no_owner");
+    check_wf(&fin, ghost_next(vin.g_owner_read, &pre, t, mode));
+    OBL(V_IMPLIES(!vin.g_owner_read, s_up_to_date(&fin, t)),
+        "C26.step.post.target_up_to_date_after_access.unless_owner_read_its_own_copy");
     V_CANARY("step");
 }
 
@@ -331,8 +371,9 @@ void h_combined(void)
     int r = parsec_data_transfer_ownership_to_copy(data, (uint8_t)t, (uint8_t)mode);
     take(&post);
     OBL(data->lock == 0, "C26.transfer.post.lock_released");
-    OBL(V_IMPLIES(!owner_copy_not_owned(&pre), V_IFF(r != -1, (mode & RD) && !s_up_to_date(&pre, t))),
-        "C26.transfer.post.transfer_requested_iff_target_not_up_to_date.owner_copy_in_state_OWNED_or_no_owner");
+    table_transfer(&pre, &post, t, mode);
+    OBL(V_IMPLIES(!vin.g_owner_read, V_IFF(r != -1, (mode & RD) && !s_up_to_date(&pre, t))),
+        "C26.transfer.post.transfer_requested_iff_target_not_up_to_date.unless_owner_read_its_own_copy");
     OBL(V_IMPLIES(r != -1, (mode & RD) && !s_up_to_date(&pre, t)), "C26.transfer.post.transfer_requested_only_if_target_not_up_to_date");
     OBL(r >= -1 && r < NDEV, "C26.transfer.post.result_is_minus1_or_a_device");
     if (r >= 0 && r < NDEV)
@@ -344,7 +385,7 @@ void h_combined(void)
             && post.readers[i] == pre.readers[i] + ((i == t && (mode & RD)) ? 1 : 0), "C26.transfer.post.frame.versions_and_other_readers_unchanged");
     caller_after(&pre, t, mode, r, vin.bump);
     take(&fin);
-    check_wf(&fin);
+    check_wf(&fin, ghost_next(vin.g_owner_read, &pre, t, mode));
     V_CANARY("combined");
 }
 
@@ -364,6 +405,7 @@ void h_history(void)
     build(&pre);
     /* the clauses are checked after every step, so a history of KSTEPS steps covers all its prefixes */
     int done = 0;
+    int g = 0;     /* ghost owner_read: no access has happened yet */
     for (int s = 0; s < KSTEPS; s++) {
         int t = vin.h_dev[s], mode = vin.h_mode[s];
         V_ASSUME(t < NDEV);
@@ -373,10 +415,12 @@ void h_history(void)
         int r = parsec_data_transfer_ownership_to_copy(data, (uint8_t)t, (uint8_t)mode);
         take(&post);
 #ifdef ONLY_DEFECT
-        V_ASSERT(V_IFF(r != -1, (mode & RD) && !s_up_to_date(&pre, t)), "C26.history.transfer_requested_iff_target_not_up_to_date");
+        /* only in the states the owner's own read produced (ghost set at a step device == owner_device, READ) */
+        V_ASSERT(V_IMPLIES(g, V_IFF(r != -1, (mode & RD) && !s_up_to_date(&pre, t))), "C26.history.transfer_requested_iff_target_not_up_to_date");
 #endif
-        OBL(V_IMPLIES(!owner_copy_not_owned(&pre), V_IFF(r != -1, (mode & RD) && !s_up_to_date(&pre, t))),
-            "C26.history.transfer_requested_iff_target_not_up_to_date.owner_copy_in_state_OWNED_or_no_owner");
+        table_history(&pre, &post, t, mode);
+        OBL(V_IMPLIES(!g, V_IFF(r != -1, (mode & RD) && !s_up_to_date(&pre, t))),
+            "C26.history.transfer_requested_iff_target_not_up_to_date.unless_owner_read_its_own_copy");
         OBL(V_IMPLIES(r != -1, (mode & RD) && !s_up_to_date(&pre, t)), "C26.history.transfer_requested_only_if_target_not_up_to_date");
         OBL(r >= -1 && r < NDEV, "C26.history.result_is_minus1_or_a_device");
         if (r >= 0 && r < NDEV)
@@ -385,7 +429,8 @@ void h_history(void)
         OBL(s_nb_owned(&post) <= 1, "C26.history.at_most_one_copy_is_OWNED");
         caller_after(&pre, t, mode, r, vin.h_bump[s]);
         take(&fin);
-        check_wf(&fin);
+        g = ghost_next(g, &pre, t, mode);
+        check_wf(&fin, g);
         done++;
     }
     OBL(done == KSTEPS, "C26.history.all_steps_executed");
